@@ -720,3 +720,119 @@ void noise_stop(void)
     for (int i = 0; i < nz_nown; i++) { liberasurecode_instance_destroy(nz_own[i].desc); stripe_free(&nz_own[i].s); free(nz_own[i].data); free(nz_own[i].twin); }
     nz_nown = 0;
 }
+
+
+/* ================================================================ populations of instances
+ * One use of an instance: encode an object (fragments compared with the reference model, header and checksum included),
+ * decode and reconstruct it with up to three erasure lists, and - for CRC32 instances - see a damaged payload flagged. */
+int lec_use_instance(const cfg_t *c, int d, uint64_t seed, const char *what)
+{
+    int n = c->k + c->m; uint64_t len = (uint64_t)c->k * 24 + 5; uint8_t *data = malloc(len); rng_t r; rng_seed(&r, MO.seed, seed); rng_fill(&r, data, len);
+    stripe_t st; int ok = 1;
+    cfg_use(c);
+    if (stripe_make(&st, d, c, data, len) != 0) { mon_viol(LEC_PROP, "churn-encode-failed", "%s: encode failed", what); free(data); return 0; }
+    uint8_t *exp[64]; uint64_t ef = model_fragment_len(c, len);
+    for (int f = 0; f < n; f++) exp[f] = malloc(ef);
+    model_stripe(c, data, len, 0, exp);
+    if (c->be != EC_BACKEND_NULL) for (int f = 0; f < n && ok; f++) if (ef != st.flen || memcmp(exp[f], st.frag[f], ef)) { mon_viol(LEC_PROP, "churn-encode-differs-from-model", "%s: fragment %d differs from the model", what, f); ok = 0; }
+    for (int f = 0; f < n; f++) free(exp[f]);
+    int tol = cfg_tol(c);
+    /* the first and the last call of every instance use the same erasure list (so that the next instance's first call repeats
+     * the previous instance's last) */
+    for (int e = 0; e < 3 && ok && c->be != EC_BACKEND_NULL; e++) {
+        uint32_t er = e == 1 ? 1u : (tol >= 2 && c->k >= 2 ? 3u : 1u);
+        if (tol < 1) break;
+        char *lst[32]; int cnt = 0; for (int f = 0; f < n; f++) if (!(er >> f & 1)) lst[cnt++] = (char *)st.frag[f];
+        char *out = NULL; uint64_t ol = 0; int rc = liberasurecode_decode(d, lst, cnt, st.flen, 0, &out, &ol);
+        if (rc != 0 || ol != len || memcmp(out, data, len)) { mon_viol(LEC_PROP, "churn-decode-wrong", "%s: decode (erased 0x%x) rc=%d%s", what, er, rc, rc ? "" : ", wrong bytes"); ok = 0; }
+        if (rc == 0) liberasurecode_decode_cleanup(d, out);
+        uint8_t *o = malloc(st.flen); rc = liberasurecode_reconstruct_fragment(d, lst, cnt, st.flen, 0, (char *)o);
+        if (rc != 0 || memcmp(o, st.frag[0], st.flen)) { mon_viol(LEC_PROP, "churn-reconstruct-wrong", "%s: reconstruct(0) (erased 0x%x) rc=%d", what, er, rc); ok = 0; }
+        free(o);
+    }
+    if (ok && c->ct == CHKSUM_CRC32 && st.flen > 80 && c->be != EC_BACKEND_NULL) {
+        uint8_t *cp = malloc(st.flen); memcpy(cp, st.frag[n - 1], st.flen); cp[80 + (seed % 4)] ^= 0x10;
+        fragment_metadata_t md; int rc = liberasurecode_get_fragment_metadata((char *)cp, &md);
+        if (rc != 0 || md.chksum_mismatch != 1 || !is_invalid_fragment(d, (char *)cp)) { mon_viol(LEC_PROP, "churn-damage-not-flagged", "%s: payload damage in a CRC32 fragment: query rc=%d mismatch=%d, validation says %s", what, rc, rc ? -1 : (int)md.chksum_mismatch, is_invalid_fragment(d, (char *)cp) ? "invalid" : "valid"); ok = 0; }
+        free(cp);
+    }
+    mon_count("evaluations", 5); mon_count("churn_instance_uses", 1);
+    stripe_free(&st); free(data);
+    return ok;
+}
+
+/* Histories over a small pool of shapes: "create pool[i]" (the same entry may be created several times: twins), "destroy the
+ * oldest / the newest / the middle live instance"; after every step every live instance is used.  All histories up to a length
+ * are enumerated from an empty population, followed by longer random ones.  Whatever instances share - arithmetic tables,
+ * matrices, plug-in handles, descriptor numbering - meets every order of arrival and departure. */
+typedef struct { int d, pi; } popent_t;
+#define POP_MAXLIVE 6
+static int pop_replay(const cfg_t *pool, int npool, const int *ops, int nops, const char *hist)
+{
+    popent_t live[POP_MAXLIVE]; int nl = 0, ok = 1; char what[256];
+    for (int s = 0; s < nops && ok; s++) {
+        int op = ops[s];
+        if (op < npool) {
+            if (nl == POP_MAXLIVE) break;
+            int d = lec_create(&pool[op]);
+            if (d <= 0) { mon_viol(LEC_PROP, "population-create-failed", "history %s, step %d: create rc=%d", hist, s + 1, d); ok = 0; break; }
+            for (int j = 0; j < nl; j++) if (live[j].d == d) { mon_viol(LEC_PROP, "population-descriptor-reused", "history %s, step %d: create returned descriptor %d which a live instance holds", hist, s + 1, d); ok = 0; }
+            live[nl].d = d; live[nl].pi = op; nl++;
+        } else {
+            if (nl == 0) break;
+            int w = op == npool ? 0 : op == npool + 1 ? nl - 1 : nl / 2;
+            if (liberasurecode_instance_destroy(live[w].d) != 0) { mon_viol(LEC_PROP, "population-destroy-failed", "history %s, step %d", hist, s + 1); ok = 0; }
+            memmove(&live[w], &live[w + 1], sizeof live[0] * (size_t)(nl - w - 1)); nl--;
+        }
+        for (int j = 0; j < nl && ok; j++) {
+            snprintf(what, sizeof what, "history %s, after step %d: live instance #%d (%s k=%d m=%d ct=%d)", hist, s + 1, j, be_name(pool[live[j].pi].be), pool[live[j].pi].k, pool[live[j].pi].m, pool[live[j].pi].ct);
+            ok = lec_use_instance(&pool[live[j].pi], live[j].d, (uint64_t)(s * 8 + j), what);
+        }
+        mon_count("population_steps", 1);
+    }
+    for (int j = 0; j < nl; j++) liberasurecode_instance_destroy(live[(j & 1) ? nl - 1 - j / 2 : j / 2].d);
+    return ok;
+}
+static void pop_hist(const cfg_t *pool, int npool, const int *ops, int nops, char *buf, size_t n)
+{
+    size_t o = 0; buf[0] = 0;
+    for (int s = 0; s < nops && o + 24 < n; s++) {
+        if (ops[s] < npool) o += (size_t)snprintf(buf + o, n - o, "%s+%s(%d,%d,ct%d)", s ? ">" : "", be_name(pool[ops[s]].be), pool[ops[s]].k, pool[ops[s]].m, pool[ops[s]].ct);
+        else o += (size_t)snprintf(buf + o, n - o, "%s-%s", s ? ">" : "", ops[s] == npool ? "oldest" : ops[s] == npool + 1 ? "newest" : "middle");
+    }
+}
+void lec_population(const cfg_t *pool_in, int npool_in, const char *tag, int exh_len, int walks, int walk_len)
+{
+    cfg_t pool[8]; int npool = 0;
+    for (int i = 0; i < npool_in && npool < 8; i++) if (liberasurecode_backend_available((ec_backend_id_t)pool_in[i].be)) pool[npool++] = pool_in[i];
+    if (npool < 2) return;
+    int nsym = npool + 3, ops[64]; char hist[512];
+    long total = 1; for (int i = 0; i < exh_len; i++) total *= nsym;
+    for (long code = 0; code < total; code++) {
+        long c = code; int live = 0, valid = 1, creates = 0;
+        for (int s = 0; s < exh_len; s++) { ops[s] = (int)(c % nsym); c /= nsym; if (ops[s] < npool) { live++; creates++; if (live > POP_MAXLIVE) valid = 0; } else { if (live == 0) valid = 0; live--; } }
+        /* histories ending in a destroy of the only instance, or starting with two steps that cancel, add nothing new */
+        if (!valid || creates < 2) continue;
+        if (!mon_case("%s|population|exhaustive-%d|#%ld", tag, exh_len, code)) continue;
+        pop_hist(pool, npool, ops, exh_len, hist, sizeof hist);
+        pop_replay(pool, npool, ops, exh_len, hist);
+        mon_distinct("nontrivial", mon_hash_u64((uint64_t)code, mon_hash_str(tag, 7001)));
+        mon_count("population_histories", 1);
+        mon_end();
+    }
+    for (int w = 0; w < walks; w++) {
+        if (!mon_case("%s|population|walk#%d", tag, w)) continue;
+        rng_t r; rng_seed(&r, MO.seed, 7100 + (uint64_t)w);
+        int live = 0, nops = 0;
+        while (nops < walk_len && nops < 64) {
+            int op = (int)(rng_u64(&r) % (uint64_t)nsym);
+            if (op < npool) { if (live == POP_MAXLIVE) continue; live++; } else { if (live == 0) continue; live--; }
+            ops[nops++] = op;
+        }
+        pop_hist(pool, npool, ops, nops, hist, sizeof hist);
+        pop_replay(pool, npool, ops, nops, hist);
+        mon_distinct("nontrivial", mon_hash_u64((uint64_t)w, mon_hash_str(tag, 7002)));
+        mon_count("population_histories", 1);
+        mon_end();
+    }
+}
